@@ -97,6 +97,11 @@ func runModule(dir string, cfg progCfg, tests bool, sequential bool) ([]progOutc
 	if err != nil {
 		return nil, err
 	}
+	return runModuleLoaded(dir, cfg, pkgs, roots, results)
+}
+
+// runModuleLoaded: the model side for already loaded and analysed packages.
+func runModuleLoaded(dir string, cfg progCfg, pkgs []*packages.Package, roots []*packages.Package, results map[string]*run.PkgResult) ([]progOutcome, error) {
 	absDir, _ := filepath.Abs(dir)
 	inModule := func(p *packages.Package) bool {
 		for _, f := range p.CompiledGoFiles {
@@ -330,14 +335,41 @@ func compareModule(sum *res.Summary, label string, dir string, cfg progCfg, outs
 	}
 }
 
+// cfgFromExtra reads --scan 0|1, --paths a,b|- , --checks X,Y|- and installs the configuration for this process
+// (one configuration per process: analyzer.configOnce).
+func cfgFromExtra(o corrOpts) progCfg {
+	cfg := defaultProgCfg()
+	var paths, checks *string
+	if v, ok := o.extra["paths"]; ok {
+		cfg.excludePaths = nil
+		if v != "-" {
+			cfg.excludePaths = strings.Split(v, ",")
+		}
+		j := strings.Join(cfg.excludePaths, ",")
+		paths = &j
+	}
+	if v, ok := o.extra["checks"]; ok {
+		cfg.excludeChecks = nil
+		if v != "-" {
+			for _, c := range strings.Split(v, ",") {
+				cfg.excludeChecks = append(cfg.excludeChecks, strings.ToUpper(c))
+			}
+		}
+		checks = &v
+		if v == "-" {
+			e := ""
+			checks = &e
+		}
+	}
+	cfg.scanTests = o.extra["scan"] == "1"
+	run.SetConfig(cfg.scanTests, paths, checks)
+	return cfg
+}
+
 func corrProgDir(o corrOpts) *res.Summary {
 	sum := &res.Summary{Suite: "progdir", Tier: o.tier, Seed: o.seed}
 	dir := o.extra["dir"]
-	cfg := defaultProgCfg()
-	if o.extra["scan"] == "1" {
-		cfg.scanTests = true
-		run.SetConfig(true, nil, nil)
-	}
+	cfg := cfgFromExtra(o)
 	outs, err := runModule(dir, cfg, true, false)
 	if err != nil {
 		sum.Notes = append(sum.Notes, "load/analyse failed: "+err.Error())
@@ -433,11 +465,7 @@ func corrProg(o corrOpts) *res.Summary {
 	if v := o.extra["n"]; v != "" {
 		fmt.Sscan(v, &n)
 	}
-	cfg := defaultProgCfg()
-	if o.extra["scan"] == "1" {
-		cfg.scanTests = true
-		run.SetConfig(true, nil, nil)
-	}
+	cfg := cfgFromExtra(o)
 	var seeds []uint64
 	if o.replay != "" {
 		// replay: "prog seed=<n> opts=<bits>"
@@ -472,6 +500,12 @@ func corrProg(o corrOpts) *res.Summary {
 				seed = seeds[0]
 			}
 			opt := gen.Options{Root: fmt.Sprintf("k%d", i), Ignores: i%3 != 0, TestFiles: i%4 == 1, NearMiss: i%5 == 2, Spelling: []int{0, 0, 0, 1, 3, 4}[i%6]}
+			if o.extra["testfiles"] == "1" {
+				opt.TestFiles = true
+			}
+			if o.extra["noann"] == "1" {
+				opt.NoAnnotations, opt.NearMiss = true, true
+			}
 			if o.replay != "" {
 				var s uint64
 				var bits int
@@ -508,6 +542,17 @@ func corrProg(o corrOpts) *res.Summary {
 			sp := bySpec[root]
 			label := fmt.Sprintf("prog seed=%d opts=%d", sp.seed, optsBits(sp.o))
 			compareModule(sum, label, dir, cfg, []progOutcome{oc}, src)
+			if o.extra["noann"] == "1" {
+				sum.Count("annotation-free-packages")
+				if len(oc.impl) > 0 || len(oc.implAnn) > 0 {
+					var det []string
+					for _, k := range oc.impl {
+						det = append(det, k+" at "+oc.implLoc[k]+" "+src(oc.implLoc[k]))
+					}
+					sum.Disagree(res.Disagreement{Kind: "impl-vs-spec", Input: label + " " + oc.pkgID + " [" + cfg.String() + "]", Impl: strings.Join(oc.impl, ",") + " annotations=" + strings.Join(oc.implAnn, ","), Model: "no diagnostics, no annotations",
+						Clause: "C09: a program without annotations (near-miss comments only) produces no diagnostic", Details: strings.Join(det, "; ")})
+				}
+			}
 			if len(oc.impl) > 2 {
 				sum.Sample(fmt.Sprintf("%s %s => %v", label, oc.pkgID, oc.impl), 6)
 			}
